@@ -30,7 +30,11 @@ def _stamp_inputs(ref_sha):
     h = [C.file_sha(os.path.join(C.REPO, gen_symdata.DATA)), ref_sha]
     for fn in ("gen_symdata.py", "gen_certs.py", "gen_chk.py", "gen_ref_spglib.py", "pyast.py"):
         h.append(C.file_sha(os.path.join(C.VERIF, "translator", fn)))
-    h.append(repr(C.newest_static_vo()))
+    m = 0.0
+    for rel in STATIC:  # the static files the generated ones are compiled against
+        vo = os.path.join(C.COQ, rel)
+        m = max(m, os.path.getmtime(vo) if os.path.exists(vo) else float("inf"))
+    h.append(repr(m))
     return C.sha("|".join(h))
 
 
